@@ -527,6 +527,13 @@ def cases(quick):
     for st in (200, 404):
         add(f"resp/{st}-empty+compress", canon_req, {"status": st, "kind": "empty", "compress": True})
         add(f"resp/{st}-empty+chunked", canon_req, {"status": st, "kind": "empty", "chunked": True})
+    # no body allowed, compression or chunking asked for all the same
+    for opt in ({"compress": True}, {"chunked": True}, {"chunked": True, "compress": True}):
+        tag = "+".join(opt)
+        add(f"resp/head-stream2-{tag}", {"method": "HEAD"}, dict({"kind": "stream2", "size": 3000}, **opt))
+        add(f"resp/head-bytes-{tag}", {"method": "HEAD"}, dict({"kind": "bytes", "size": 3000}, **opt))
+        add(f"resp/204-stream2-{tag}", canon_req, dict({"kind": "stream2", "size": 100, "status": 204}, **opt))
+        add(f"resp/304-stream0-{tag}", canon_req, dict({"kind": "stream0", "size": 0, "status": 304}, **opt))
     add("resp/stream-length", canon_req, {"kind": "stream2", "size": 100, "length": True})
     add("resp/reason", canon_req, {"kind": "bytes", "reason": "Very Custom"})
     add("resp/headers-repeated", canon_req, {"kind": "bytes", "headers": "repeated"})
